@@ -377,6 +377,34 @@ def unrelated_editor_shares_checkpoint_with_inner_action(rng, s, b):
 
 
 @mutator("C06")
+def unrelated_editor_behind_redundant_dependency(rng, s, b):
+    """Thread group G waits for checkpoint K.  X is an action of G that names K itself as its depends_on (legal,
+    redundant).  F1 creates a promise in G; a new action F2 of G acts on that promise and waits for a thread-bound
+    checkpoint that only compares X -- F1 is no ancestor of F2."""
+    gs = [g for g in s["groups"] if g["dep"] is not None]
+    rng.shuffle(gs)
+    for G in gs:
+        ctx = ("group", G["id"])
+        mine = [a for a in s["actions"] if a["ctx"] == ctx]
+        xs = [a for a in mine if a["dep"] in (None, G["dep"]) and b.creator.get(a["promise"][1]) == a["id"] and not a["op"]["edges"] and a["op"]["appends"] is None]
+        f1s = [a for a in mine if b.creator.get(a["promise"][1]) == a["id"] and not any(y is not a and y["promise"] == a["promise"] for y in s["actions"])]
+        pairs = [(x, f) for x in xs for f in f1s if x is not f and f["id"] not in b.anc.get(x["id"], set())]
+        if not pairs:
+            continue
+        X, F1 = rng.choice(pairs)
+        X["dep"] = G["dep"]
+        kid = max(c["id"] for c in s["checkpoints"]) + 1
+        s["checkpoints"].append({"id": kid, "alias": 500 + kid, "gate": None, "deps": [b.make_cmp(X["id"])[0]], "ctx": ctx})
+        eid = max(a["id"] for a in s["actions"]) + 1
+        pr = next(q for q in s["promises"] if q["id"] == F1["promise"][1])
+        t = b.otype(pr["type"][1])
+        s["actions"].append({"id": eid, "name": 400 + eid, "party": F1["party"], "promise": F1["promise"], "ctx": ctx, "dep": ("checkpoint", kid),
+                             "op": {"incl": ("include", [t["attrs"][0]["name"]]), "defaults": [], "edges": [], "appends": None}, "milestones": []})
+        return "an action acts on a promise whose creator is not its ancestor; its only condition is on an action that repeats its thread group's checkpoint"
+    return None
+
+
+@mutator("C06")
 def promise_never_fulfilled(rng, s, b):
     t = rng.choice(s["otypes"])
     pid = max(p["id"] for p in s["promises"]) + 1
@@ -863,7 +891,7 @@ def edit_outside_fulfilment_context(rng, s, b):
     return "edit outside the context in which the promise is fulfilled"
 
 
-THREAD_ONLY = {"threaded_checkpoint_nested_outside", "threaded_action_compared_outside_alone", "unrelated_editor_shares_checkpoint_with_inner_action", "nested_spawn_from_threaded_non_ancestor", "path_on_scalar_variable", "threaded_checkpoint_used_outside", "threaded_action_compared_outside", "second_threaded_operand_outside", "variable_used_outside",
+THREAD_ONLY = {"unrelated_editor_behind_redundant_dependency", "threaded_checkpoint_nested_outside", "threaded_action_compared_outside_alone", "unrelated_editor_shares_checkpoint_with_inner_action", "nested_spawn_from_threaded_non_ancestor", "path_on_scalar_variable", "threaded_checkpoint_used_outside", "threaded_action_compared_outside", "second_threaded_operand_outside", "variable_used_outside",
                "spawn_from_non_list", "spawn_not_fulfilled_by_ancestor", "unused_thread_group",
                "variable_name_repeats_in_chain", "promise_context_mismatch", "edit_outside_fulfilment_context"}
 
@@ -925,6 +953,15 @@ def appends_to_settable_collection(rng, s, b):
     users = [x for x in s["actions"] if x["promise"][1] == q[1]]
     x = rng.choice(users)
     x["op"]["incl"] = ("include", sorted(set((x["op"]["incl"][1] or []) if x["op"]["incl"][0] == "include" else []) | {path[-1]}))
+    others = [y for y in users if y is not x]
+    if others and rng.random() < 0.6:
+        # another action on the same object excludes exactly that collection (whatever one action may set stays
+        # settable, in whichever order the actions are declared)
+        y = rng.choice(others)
+        y["op"]["incl"] = ("exclude", [path[-1]])
+        y["op"]["defaults"] = [d for d in y["op"]["defaults"] if d[0] != path[-1]]
+        y["op"]["edges"] = [e for e in y["op"]["edges"] if e[0] != path[-1]]
+        return "the appended-to edge collection is settable by one action's operation and excluded by another's"
     return "the appended-to edge collection is settable by an action's operation"
 
 
